@@ -284,6 +284,79 @@ def klass_of(kind, op, ret, argt, tup, vi, vf, vc):
     return "other"
 
 
+# ---- big-integer builtins reached through the library's operators: `(a@Integer) <= (b@Integer)` is inlined to BIntLE on two constants,
+# which the folder then evaluates (the Builtin-import spelling above leaves big-integer operands in locals it does not fold)
+LIBOPS = {"BIntLE": ("<=", "Bool"), "BIntLT": ("<", "Bool"), "BIntEQ": ("=", "Bool"), "BIntNE": ("~=", "Bool"),
+          "BIntPlus": ("+", "BInt"), "BIntMinus": ("-", "BInt"), "BIntTimes": ("*", "BInt"),
+          "BIntQuo": ("quo", "BInt"), "BIntRem": ("rem", "BInt"), "BIntGcd": ("gcd", "BInt")}
+LIBHDR = '''#include "axllib"
+import from SingleInteger, Integer, Boolean, String;
+pz(i: SingleInteger, x: Integer): () == { print << "@ " << i << " " << x << newline }
+pb(i: SingleInteger, b: Boolean): () == { print << "@ " << i << " " << b << newline }
+'''
+
+
+def zl(v):
+    return "(%d@Integer)" % v if v >= 0 else "(-(%d@Integer))" % -v
+
+
+def libop_source(op, tuples):
+    sym, ret = LIBOPS[op]
+    lines = [LIBHDR]
+    for i, (a, b) in enumerate(tuples):
+        e = "gcd(%s, %s)" % (zl(a), zl(b)) if sym == "gcd" else "(%s %s %s)" % (zl(a), sym, zl(b))
+        lines.append("t%d(): () == %s(%d, %s);" % (i, "pb" if ret == "Bool" else "pz", i, e))
+    lines += ["t%d();" % i for i in range(len(tuples))]
+    return "\n".join(lines) + "\n"
+
+
+def run_libop(args):
+    tc, op, tuples, wd0 = args
+    ev = Ev()
+    fails = []
+    wd = os.path.join(wd0, "lib-" + op)
+    os.makedirs(wd, exist_ok=True)
+    R.write(os.path.join(wd, "b.as"), libop_source(op, tuples))
+    r0 = aldor.interp(tc, wd, "b.as", ["-Q0"], lib="axllib", cpu=300)
+    r2 = aldor.interp(tc, wd, "b.as", ["-Q2", "-Qinline-all", "-Ffm=q2.fm"], lib="axllib", cpu=300)
+    if aldor.has_error(r0.text()) or aldor.has_error(r2.text()):
+        fails.append(Fail({"kind": "rejected", "op": op, "klass": "other", "what": "%s through the library operator: source rejected: %s" % (op, (r0.text() + r2.text())[:300].replace("\n", " | "))},
+                          {"libop": op, "tuples": [list(t) for t in tuples[:20]]}))
+        return result(ev, fails)
+    def lines_of(r):
+        out = {}
+        for l in aldor.marker_lines(r):
+            p_ = l.split()
+            if len(p_) >= 3 and p_[1].isdigit():
+                out[int(p_[1])] = " ".join(p_[2:])
+        return out
+    l0, l2 = lines_of(r0), lines_of(r2)
+    try:
+        left = len(re.findall(r"\(BCall\s+%s\b" % op, open(os.path.join(wd, "q2.fm"), errors="replace").read()))
+    except OSError:
+        left = len(tuples)
+    ev.extra.setdefault("unfolded_calls", {})[op + " (library operator)"] = "%d/%d" % (left, len(tuples))
+    model = MODELS.get(op)
+    for i, (a, b) in enumerate(tuples):
+        v0, v2 = l0.get(i), l2.get(i)
+        ev.case("lib|%s|%d|%d" % (op, a, b), left < len(tuples), classes=["libop_" + op])
+        want = None
+        if model is not None:
+            m = model(a, b)
+            want = ("T" if m else "F") if isinstance(m, bool) else str(m)
+        what = None
+        if v0 is None or v2 is None:
+            what = "%s(%d, %d) through the library operator: a result line is missing (-Q0 %r, folded %r)" % (op, a, b, v0, v2)
+        elif v0 != v2:
+            what = "%s(%d, %d) through the library operator: interpreter at -Q0 %s, folded at -Q2 %s" % (op, a, b, v0, v2)
+        elif want is not None and v0 not in (want, want.replace("T", "true").replace("F", "false")):
+            what = "%s(%d, %d) through the library operator: both say %s, the mathematical definition says %s" % (op, a, b, v0, want)
+        if what:
+            fails.append(Fail({"kind": "evaluators-differ", "op": op, "klass": "other", "what": what}, {"libop": op, "tuples": [[a, b]]}))
+            break
+    return result(ev, fails)
+
+
 def tuples_for(op, sig, quick, seed):
     import itertools, random
     argt = sig[0]
@@ -356,6 +429,15 @@ def run(ctx):
                     jobs.append((ctx.tc, op, tab[op], chunk if tab[op][0] else [()], os.path.join(wd, "j%d" % len(jobs))))
         ctx.ev.extra["domain_excluded"] = dom
         ctx.pmap(run_op, jobs)
+        if ctx.fails:
+            return
+        ljobs = []
+        for op in LIBOPS:
+            tups, _ = tuples_for(op, (["BInt", "BInt"], LIBOPS[op][1], 1), ctx.quick, ctx.seed)
+            tups = [t for t in tups if not (op in ("BIntQuo", "BIntRem") and t[1] == 0)]
+            eq = [(t[0], t[0]) for t in tups[:40]]          # equal operands: the boundary of every comparison
+            ljobs.append((ctx.tc, op, sorted(set(tups + eq)), wd))
+        ctx.pmap(run_libop, ljobs)
         fold = ctx.ev.extra.get("fold", {})
     finally:
         shutil.rmtree(wd, ignore_errors=True)
@@ -364,6 +446,18 @@ def run(ctx):
 def replay(ctx, case):
     import shutil
     tab = table(ctx.tc)
+    if "libop" in case:
+        wdl = os.path.join(R.WORK, "c04rl-%d" % os.getpid())
+        shutil.rmtree(wdl, ignore_errors=True)
+        os.makedirs(wdl)
+        try:
+            r = run_libop((ctx.tc, case["libop"], [tuple(t) for t in case["tuples"]], wdl))
+            if r["fails"]:
+                f = r["fails"][0]
+                return Fail(f["desc"], case, f["what"])
+            return None
+        finally:
+            shutil.rmtree(wdl, ignore_errors=True)
     op = case["op"]
     wd = os.path.join(R.WORK, "c04r-%d" % os.getpid())
     shutil.rmtree(wd, ignore_errors=True)
